@@ -688,6 +688,17 @@ func init() {
 					ite(sx("<", r, "65536"), "3", "4")))))
 		fr.safety("bounds", x, rch, sx("<=", n, p.C[1]))
 		vc.havocElems(types.Typ[types.Uint8], p.C[0], n, st, fr)
+		// the bytes written: UTF-8 (RFC 3629) of r, or of U+FFFD when r is not a
+		// Unicode scalar value
+		rr := vc.define("encrune", "Int", ite(or(sx("<", r, "0"), sx(">", r, "1114111"), and(sx("<=", "55296", r), sx("<", r, "57344"))), "65533", r))
+		nh := vc.get(st, "E$uint8")
+		at := func(k int) Term { return vc.sel(nh, adr(p.C[0], itoa(int64(k)))) }
+		cont := func(shift string) Term { return sx("+", "128", sx("mod", sx("div", rr, shift), "64")) }
+		vc.assume(and(
+			implies(eq(n, "1"), eq(at(0), rr)),
+			implies(eq(n, "2"), and(eq(at(0), sx("+", "192", sx("div", rr, "64"))), eq(at(1), cont("1")))),
+			implies(eq(n, "3"), and(eq(at(0), sx("+", "224", sx("div", rr, "4096"))), eq(at(1), cont("64")), eq(at(2), cont("1")))),
+			implies(eq(n, "4"), and(eq(at(0), sx("+", "240", sx("div", rr, "262144"))), eq(at(1), cont("4096")), eq(at(2), cont("64")), eq(at(3), cont("1"))))))
 		return Val{T: x.Type(), C: []Term{n}}
 	}
 	m := newModset()
@@ -710,6 +721,21 @@ func init() {
 		// base 16, at most 4 digits: the value is below 2^16
 		if base, ok := litInt(args[1].t()); ok && base == 16 {
 			vc.assume(implies(and(eq(e.C[0], "0"), sx("<=", args[0].C[1], "4")), sx("<", v, "65536")))
+			// exactly 4 characters (strconv documentation: base 16 given explicitly
+			// accepts neither sign, prefix nor underscore): succeeds iff all four are
+			// hexadecimal digits, and then yields their positional value
+			vc.regFam("E$uint8", "Int")
+			h := vc.get(st, "E$uint8")
+			hexd := func(k int) Term {
+				b := vc.sel(h, adr(args[0].C[0], itoa(int64(k))))
+				return ite(and(sx("<=", "48", b), sx("<=", b, "57")), sx("-", b, "48"),
+					ite(and(sx("<=", "97", b), sx("<=", b, "102")), sx("-", b, "87"),
+						ite(and(sx("<=", "65", b), sx("<=", b, "70")), sx("-", b, "55"), "(- 1)")))
+			}
+			d0, d1, d2, d3 := vc.define("hexd", "Int", hexd(0)), vc.define("hexd", "Int", hexd(1)), vc.define("hexd", "Int", hexd(2)), vc.define("hexd", "Int", hexd(3))
+			okAll := and(sx("<=", "0", d0), sx("<=", "0", d1), sx("<=", "0", d2), sx("<=", "0", d3))
+			val := sx("+", sx("*", "4096", d0), sx("*", "256", d1), sx("*", "16", d2), d3)
+			vc.assume(implies(eq(args[0].C[1], "4"), and(eq(eq(e.C[0], "0"), okAll), implies(okAll, eq(v, val)))))
 		}
 		return Val{T: x.Type(), C: []Term{v, e.C[0], e.C[1]}}
 	}
